@@ -200,6 +200,9 @@ class Check:
         self.workdir = os.path.join(WORK, pid)
         os.makedirs(self.workdir, exist_ok=True)
         os.makedirs(EVID, exist_ok=True)
+        # two runs of the same property (e.g. quick and thorough started together) share this work directory: serialise them
+        self._runlock = open(os.path.join(self.workdir, ".lock"), "w")
+        fcntl.flock(self._runlock, fcntl.LOCK_EX)
         self.thorough = tier == "thorough"
         self.impl_mem_limit = 6 << 30   # address-space limit of implementation harness processes (a runaway allocation crashes, not thrashes)
         self.impl_timeout = 900
